@@ -16,6 +16,8 @@ def thread_frame(repo):
     """what the keyboard thread runs on a status/help request only reads the state it shares with the generation loop"""
     from pyvc import effects
     recs = effects.readonly_frame(repo, THREAD_READS, tag='thread.readonly')
+    # ... and writes nothing to stdout (a status line in the guess stream alters it exactly when a request arrives)
+    recs += [r for r in effects.stdout_frame(repo, ['lib_guesser/status_report.py'], {})]
     for r in recs:
         r['name'] = 'C12.' + r['name']
     return recs
